@@ -16,6 +16,8 @@ import (
 )
 
 type c01Case struct {
+	// Age > 0: the database starts with the row-id and LSN counters of a database long in use (props.Ages)
+	Age        int          `json:"age,omitempty"`
 	Stmts      []model.Stmt `json:"stmts"`
 	CheckEvery int          `json:"check_every"`
 }
@@ -39,7 +41,7 @@ func c01Gen(rt *rapid.T) c01Case {
 		cfg.RowCounts = []int{1, 9, 40, 80, 120}
 	}
 	db := model.NewDB()
-	return c01Case{Stmts: gen.History(rt, cfg, db), CheckEvery: rapid.SampledFrom([]int{1, 1, 2, 3, 7}).Draw(rt, "every")}
+	return c01Case{Age: DrawAge(rt), Stmts: gen.History(rt, cfg, db), CheckEvery: rapid.SampledFrom([]int{1, 1, 2, 3, 7}).Draw(rt, "every")}
 }
 
 // c01Labels computes, from the case alone, whether it is non-trivial.
@@ -111,6 +113,9 @@ func c01Run(c c01Case, st *vlib.Stats) string {
 		return "setup failed: " + err.Error()
 	}
 	defer eng.Crash(true)
+	if err := AgeDatabase(eng, c.Age); err != nil {
+		return "advancing the counters failed: " + err.Error()
+	}
 	m := model.NewDB()
 	tr := NewIDTracker()
 	every := c.CheckEvery
